@@ -43,10 +43,16 @@ def main():
         demo = os.path.join(src_dir, 'demo.py')
         r0 = run(['/venv/bin/python', demo], env=env, cwd=tmp, timeout=600)
         result['demo_clean_exit'] = r0.returncode
-        ap = run(['git', '-C', work, 'apply', os.path.abspath(os.path.join(src_dir, 'patch.diff'))])
+        patch_path = os.path.abspath(os.path.join(src_dir, 'patch.diff'))
+        ap = run(['git', '-C', work, 'apply', patch_path])
         if ap.returncode != 0:
-            print('PATCH DOES NOT APPLY', ap.stderr[:300])
-            return 2
+            # the patch was written against an older /repo HEAD (before later fix: commits): apply with context fuzz
+            ap = run(['patch', '-p1', '-d', work, '--no-backup-if-mismatch', '-i', patch_path])
+            if ap.returncode != 0:
+                print('PATCH DOES NOT APPLY', ap.stdout[-300:], ap.stderr[:300])
+                return 2
+            rebased = run(['git', '-C', work, 'diff']).stdout
+            result['rebased_patch'] = rebased
         st = run(['/venv/bin/python', '-m', 'pytest', '-q', '-p', 'no:cacheprovider', 'src/tests'], env=env, cwd=work, timeout=900)
         last = st.stdout.strip().splitlines()[-1] if st.stdout.strip() else st.stderr[-200:]
         result['suite'] = last
@@ -71,6 +77,9 @@ def main():
             os.makedirs(out, exist_ok=True)
             for name in ('patch.diff', 'demo.py'):
                 shutil.copy(os.path.join(src_dir, name), os.path.join(out, name))
+            if result.get('rebased_patch'):
+                with open(os.path.join(out, 'patch.diff'), 'w') as fh:
+                    fh.write(result['rebased_patch'])
             old = {}
             if os.path.exists(os.path.join(out, 'meta.json')):
                 old = json.load(open(os.path.join(out, 'meta.json')))
